@@ -32,19 +32,8 @@ theorem C02_acyclic_sorts (av : List Name) (els : List Dep)
     graph was complete and acyclic. -/
 theorem C02_ok_is_schedule (av : List Name) (els : List Dep)
     (hnd : (els.map (·.name)).Nodup) (o : List Name) (h : sortDeps av els = .ok o) :
-    o.Perm (els.map (·.name)) ∧ Sched els av o ∧ Sortable av els := by
-  unfold sortDeps at h
-  cases hc : checkSortable av els with
-  | error e => simp [hc, bind, Except.bind] at h
-  | ok u =>
-    simp [hc, bind, Except.bind] at h
-    obtain ⟨tail, hot, hsched, hperm⟩ := sortLoop_sound els _ av els none [] o (fun d hd => hd) h
-    have hperm' : o.Perm (els.map (·.name)) := by simpa [hot] using hperm
-    have hsched' : Sched els av o := by simpa [hot] using hsched
-    refine ⟨hperm', hsched', ⟨fun n => o.idxOf n, ?_⟩⟩
-    intro d hd r hr
-    have hmem : d.name ∈ o := hperm'.mem_iff.mpr (List.mem_map.mpr ⟨d, hd, rfl⟩)
-    exact sched_rank hnd av o hsched' d hd hmem r hr
+    o.Perm (els.map (·.name)) ∧ Sched els av o ∧ Sortable av els :=
+  sortDeps_ok_sched av els hnd o h
 
 /-- Any dependency cycle — including a component naming itself — and any missing name is
     rejected: no order (hence no numbers) is returned. -/
